@@ -579,6 +579,70 @@ fn eviction_bound(ctx: &Ctx, acc: &Accum, rounds: u64) -> Option<i32> {
     None
 }
 
+/// C15: fresh inserts and deletes on disjoint keys from many threads (exact accounting classes
+/// only, far below the limit): at quiescence the accounted usage equals the stored bytes and no
+/// resident item was lost.
+fn accounting_concurrent(ctx: &Ctx, acc: &Accum, rounds: u64) -> Option<i32> {
+    let stack = Arc::new(Stack::new(Policy::Random(1 << 30)));
+    let mut w0 = Worker::new(&stack);
+    for i in 0..16 {
+        w0.exec(&Cmd::set(format!("res{}", i).as_bytes(), b"resident", 0, 0));
+    }
+    let barrier = Arc::new(Barrier::new(8));
+    std::thread::scope(|s| {
+        for t in 0..8usize {
+            let (stack, barrier) = (stack.clone(), barrier.clone());
+            s.spawn(move || {
+                let mut w = Worker::new(&stack);
+                for r in 0..rounds {
+                    barrier.wait();
+                    for i in 0..8 {
+                        let key = format!("t{}-{}", t, i).into_bytes();
+                        w.exec(&Cmd::set(&key, &vec![b'a'; 10 + (r as usize + i) % 50], 0, 0));
+                    }
+                    barrier.wait();
+                    for i in 0..8 {
+                        let key = format!("t{}-{}", t, i).into_bytes();
+                        w.exec(&Cmd::new(Kind::Delete, &key));
+                    }
+                }
+            });
+        }
+    });
+    acc.evaluations.fetch_add(rounds * 8 * 16, Ordering::Relaxed);
+    acc.count("stress_accounting_rounds", rounds);
+    let mut total = 0usize;
+    for i in 0..16 {
+        match stack.physical_len(format!("res{}", i).as_bytes()) {
+            Some(l) => total += l,
+            None => {
+                return Some(violation(
+                    ctx,
+                    "live_item_lost_concurrent",
+                    format!("resident item res{} was evicted although only a few hundred bytes were ever stored under a 1 GiB limit (concurrent inserts/deletes of other keys)", i),
+                    json!({"scenario": "accounting_concurrent"}),
+                ))
+            }
+        }
+    }
+    for t in 0..8 {
+        for i in 0..8 {
+            total += stack.physical_len(format!("t{}-{}", t, i).as_bytes()).unwrap_or(0);
+        }
+    }
+    if let Some(u) = stack.usage() {
+        if u != total as u64 {
+            return Some(violation(
+                ctx,
+                "accounting_drift_concurrent",
+                format!("after concurrent fresh inserts and deletes on disjoint keys the accounted usage is {} but {} bytes are stored", u, total),
+                json!({"scenario": "accounting_concurrent", "usage": u, "stored": total}),
+            ));
+        }
+    }
+    None
+}
+
 pub fn phase(ctx: &Ctx, acc: &Accum, prop: &str) -> Option<i32> {
     let t0 = Instant::now();
     let q = ctx.quick();
@@ -589,6 +653,7 @@ pub fn phase(ctx: &Ctx, acc: &Accum, prop: &str) -> Option<i32> {
             .or_else(|| absent_cas_vs_plain(ctx, acc, if q { 60_000 } else { 1_500_000 })),
         "C04" => rmw(ctx, acc, if q { 2_000 } else { 20_000 }, if q { 200 } else { 3000 }),
         "C16" => progress(ctx, acc, if q { 4 } else { 30 }),
+        "C15" => accounting_concurrent(ctx, acc, if q { 3000 } else { 60_000 }),
         "C14" => eviction_bound(ctx, acc, if q { 3 } else { 60 }),
         _ => None,
     };
